@@ -238,6 +238,9 @@ def correspondence(ctx):
         for tz in ('Etc/GMT+9', 'Etc/GMT-9'):
             if os.path.exists('/usr/share/zoneinfo/' + tz):
                 corr = e2e.run_focus(ctx, 'c06', 17, corr=corr, env={'TZ': tz}, tag='-' + tz.replace('/', '_'))
+        # ... and once with the variables that reproducible-build environments export for "the" time: the clock the
+        # expiry is compared with is the real one, whatever the environment says
+        corr = e2e.run_focus(ctx, 'c06', 17, corr=corr, env={'SOURCE_DATE_EPOCH': '946684800', 'FAKETIME': '2000-01-01 00:00:00'}, tag='-epoch')
     except V.BuildError as e:
         deferred.append('pipeline level (e2e): ' + str(e)[:600])
     corr.rule += ("; PIPELINE LEVEL: %d generated supply chains whose only defect is the expiry (expired long ago / 3 s ago, garbage, empty, "
